@@ -117,7 +117,7 @@ func runC20(c *Ctx, r *Report, tier string) {
 	// ---- MINIMUM
 	cn := c.fname(cc)
 	var cl *Loop
-	for _, l := range loopsOf(cc) {
+	for _, l := range c.loopsDeep(cc) {
 		cl = l
 	}
 	if cl == nil {
@@ -173,7 +173,7 @@ func (c *Ctx) dpRules(r *Report, lv *ssa.Function) {
 	ln := c.fname(lv)
 	// table
 	var table *ssa.MakeSlice
-	for _, b := range lv.Blocks {
+	for _, b := range c.blocks(lv) {
 		for _, in := range b.Instrs {
 			if ms, ok := in.(*ssa.MakeSlice); ok && relType(c, ms.Type()) == "[][]int" {
 				table = ms
@@ -187,7 +187,7 @@ func (c *Ctx) dpRules(r *Report, lv *ssa.Function) {
 	S, T := "conv[[]rune](P0)", "conv[[]rune](P1)"
 	r.Check(c.term(table.Len) == "(len("+S+") + 1)", "DP", ln, "table rows", c.ipos(table), "len(characters of s)+1 rows", "table has "+c.term(table.Len)+" rows")
 	// no range over a string (byte offsets as indices)
-	for _, b := range lv.Blocks {
+	for _, b := range c.blocks(lv) {
 		for _, in := range b.Instrs {
 			if nx, ok := in.(*ssa.Next); ok && nx.IsString {
 				r.Fail("DP", ln, "range over a string", c.ipos(in), "U3a: ranging over a string yields byte offsets; the table is indexed by characters")
@@ -228,7 +228,7 @@ func (c *Ctx) dpRules(r *Report, lv *ssa.Function) {
 	}
 	// index values of the double loop: the values used to index s and t
 	var iVal, jVal ssa.Value
-	for _, b := range lv.Blocks {
+	for _, b := range c.blocks(lv) {
 		for _, in := range b.Instrs {
 			if ia, ok := in.(*ssa.IndexAddr); ok {
 				switch c.term(ia.X) {
@@ -282,7 +282,7 @@ func (c *Ctx) dpRules(r *Report, lv *ssa.Function) {
 	}
 	var interior []string
 	borderRow, borderCol := false, false
-	for _, b := range lv.Blocks {
+	for _, b := range c.blocks(lv) {
 		for _, in := range b.Instrs {
 			st, ok := in.(*ssa.Store)
 			if !ok {
@@ -294,14 +294,14 @@ func (c *Ctx) dpRules(r *Report, lv *ssa.Function) {
 			}
 			// border stores: dists[x][0] = x  and dists[0][y] = y
 			if k, isC := constInt(col); isC && k == 0 {
-				lp := innermost(loopsOf(lv), b)
+				lp := innermost(c.loopsDeep(lv), b)
 				okB := lp != nil && c.resolve(st.Val) == c.resolve(row) && strings.HasPrefix(c.term(lp.Header.Instrs[len(lp.Header.Instrs)-1].(*ssa.If).Cond), "((phi{(phi↺ + 1) | -1} + 1) < len(makeslice[[][]int]")
 				r.Check(okB, "DP", ln, "column 0 initialised over all rows", c.ipos(st), "dists[i][0] = i for every row of the table", "column-0 initialisation does not cover the whole table")
 				borderCol = true
 				continue
 			}
 			if k, isC := constInt(row); isC && k == 0 {
-				lp := innermost(loopsOf(lv), b)
+				lp := innermost(c.loopsDeep(lv), b)
 				cond := ""
 				if lp != nil {
 					cond = c.term(lp.Header.Instrs[len(lp.Header.Instrs)-1].(*ssa.If).Cond)
